@@ -554,6 +554,18 @@ func (c *FnCtx) execRange(st *State, x *ast.RangeStmt) []Outcome {
 		c.loopFrame(st, "assume", ord, x.Pos())
 		idx := c.fresh(st, idxName, it)
 		extra := map[string]Term{idxName: idx}
+		// the hidden index is visible by name (idxN) to `use` hints evaluated inside the body
+		if c.loopIdxVar == nil {
+			c.loopIdxVar = map[ast.Node]*types.Var{}
+		}
+		iv := c.loopIdxVar[x]
+		if iv == nil {
+			iv = types.NewVar(x.Pos(), c.fi.Pkg.Types, idxName, it)
+			c.loopIdxVar[x] = iv
+		}
+		st.vars[iv] = idx
+		exitIdxVar := iv
+		_ = exitIdxVar
 		st.assume("(<= 0 " + idx.S + ")")
 		st.assume("(<= " + idx.S + " " + lenS + ")")
 		c.assumeInvariant(st, invs, extra)
@@ -754,7 +766,7 @@ func (c *FnCtx) collectMods(n ast.Node, ms *modSet, info *types.Info, depth int)
 				if _, ok := ast.Unparen(y.X).(*ast.CompositeLit); ok {
 					ms.alloc = true
 					// fields initialised by the literal
-					if nn, stt, _ := derefNamedStruct(info.TypeOf(y.X)); nn != nil && d.inModule(nn.Obj().Pkg()) {
+					if nn, stt, _ := derefNamedStruct(info.TypeOf(y.X)); nn != nil && d.modelled(nn) {
 						for i := 0; i < stt.NumFields(); i++ {
 							ms.heap[fieldKey(nn, stt.Field(i).Name())] = arraySort(sV, d.sortOf(stt.Field(i).Type()))
 						}
@@ -794,7 +806,7 @@ func (c *FnCtx) collectMods(n ast.Node, ms *modSet, info *types.Info, depth int)
 							ms.heap["MV:"+mapTypeName(u)] = arraySort(sV, arraySort(ks, vs))
 						}
 						if id.Name == "new" {
-							if nn, stt, _ := derefNamedStruct(info.TypeOf(y.Args[0])); nn != nil && d.inModule(nn.Obj().Pkg()) {
+							if nn, stt, _ := derefNamedStruct(info.TypeOf(y.Args[0])); nn != nil && d.modelled(nn) {
 								for i := 0; i < stt.NumFields(); i++ {
 									ms.heap[fieldKey(nn, stt.Field(i).Name())] = arraySort(sV, d.sortOf(stt.Field(i).Type()))
 								}
